@@ -422,6 +422,10 @@ def check_c13(pid, tier, t0, replay_key):
     findings += f
     obl += o
     st.update(s2)
+    f, o, s2 = e5.rule_g4(P)
+    findings += f
+    obl += o
+    st.update(s2)
     # recursion census restricted to the FEA front end
     reach = e3.entry_reach(P)
     f, o, s, s2 = e4.rule_x4(P, reach, tables, None)
@@ -435,6 +439,7 @@ def check_c13(pid, tier, t0, replay_key):
     if tier == "thorough":
         st["selftest"] = run_selftest(pid)
     explanation = (
+        "(G4) validation does not call the typed-AST accessors that panic on a token's TEXT (`text().parse().expect(..)`; a NUMBER is `-?[0-9]+` of any length): ten such calls exist today and are KNOWN findings (reproduced: `UnicodeRange 40000;`, `\\99999`, `parameters 10 40000;` panic in validation). "
         "Decides some clauses of C13 only. (G1) Termination of the recursive-descent parser's loops: a context-sensitive dataflow over MIR "
         "(token-kind sets evaluated from the TokenSet constants, path-sensitive on the results of eat/expect/matches, combinators analysed per "
         "closure binding) shows that every trip round every loop in a function that takes the Parser consumes at least one non-EOF lexeme (or the "
